@@ -40,4 +40,5 @@ def main():
                       "state key = node structure with value indices + value vector + frozen/autoFreeze flags"]
     c.finish()
 
-main()
+from vlib.core import run_main
+run_main(main)
